@@ -7,7 +7,9 @@ package httpserver
 //   TestVerifC05Replay - replays TLC-generated behaviours; every request record carries the
 //                        contract's verdicts: den (the client is denied by a filter applying to the
 //                        request), own (the route the request belongs to), all (the client is
-//                        allowed by every filter of the server), c01 (what the routing rules say) (MBT)
+//                        allowed by every filter of the server), c01 (what the routing rules say),
+//                        amb (denied only by the filter of a host-matching rule passed over on the
+//                        way to the route: C05 (iii), cached mux against the cache-less one) (MBT)
 //   TestVerifC05Trace  - seeded random configurations with real IPv4/IPv6 filters, clients taken
 //                        from RemoteAddr / X-Forwarded-For / X-Real-IP, request sequences over a
 //                        small key space; observations of the four muxes recorded for TLC (TV)
@@ -44,7 +46,7 @@ func TestVerifC05Replay(t *testing.T) {
 	w := vx.NewWriter(t, "VERIF_OUT")
 	defer w.Close()
 	sizes := []int{64, 1, 2, 3}
-	steps, mism, rejected, denied, allowed := 0, 0, 0, 0, 0
+	steps, mism, rejected, denied, allowed, passed := 0, 0, 0, 0, 0, 0
 	for bi, beh := range behs {
 		if len(beh) == 0 || vx.Str(beh[0]["a"]) != "cfg" {
 			t.Fatalf("behaviour %d does not start with cfg", bi)
@@ -67,12 +69,15 @@ func TestVerifC05Replay(t *testing.T) {
 			case "req":
 				steps++
 				q := st["q"].(vx.M)
-				den, all := vx.Bool(st["den"]), vx.Bool(st["all"])
+				den, all, amb := vx.Bool(st["den"]), vx.Bool(st["all"]), vx.Bool(st["amb"])
 				own := st["own"].(vx.M)
 				c01 := st["c01"].(vx.M)
 				ou, oc, zu, zc := rhServe(x.fu, q), rhServe(x.fc, q), rhServe(x.zu, q), rhServe(x.zc, q)
 				if den {
 					denied++
+				}
+				if amb {
+					passed++
 				}
 				if all {
 					allowed++
@@ -87,13 +92,15 @@ func TestVerifC05Replay(t *testing.T) {
 						clause = "i"
 					} else if all && !rhSame(c.o, c.z) && !rhSame(c.o, c01) {
 						clause = "ii"
+					} else if amb && c.cache && (code == 0) != (vx.Int(ou["code"]) == 0) {
+						clause = "iii" // C05iiiOf: the cached mux against the cache-less one
 					}
 					if clause == "" {
 						continue
 					}
 					mism++
 					rec := vx.M{"k": "mismatch", "b": bi, "step": si + 1, "cs": cs, "cache": c.cache, "clause": clause, "cfg": cfg,
-						"q": q, "o": c.o, "z": c.z, "c01": c01, "own": own, "den": den, "all": all, "exp": st["exp"],
+						"q": q, "o": c.o, "z": c.z, "ou": ou, "c01": c01, "own": own, "den": den, "all": all, "amb": amb, "exp": st["exp"],
 						"spec": x.fc.spec, "cul": []interface{}{}}
 					if c.cache {
 						if p, ok := rhCulprit(cfg, cs, hist, q, c.o); ok {
@@ -114,7 +121,7 @@ func TestVerifC05Replay(t *testing.T) {
 		x.close()
 	}
 	w.Raw(vx.M{"k": "summary", "behaviours": len(behs), "steps": steps, "mismatches": mism, "rejected": rejected,
-		"denied": denied, "allowed": allowed})
+		"denied": denied, "allowed": allowed, "passed": passed})
 }
 
 func TestVerifC05Trace(t *testing.T) {
